@@ -434,6 +434,14 @@ pub fn tab(q: &mut String, t: usize) {
     }
 }
 
+///
+/// SQL text of a float: the exponent form is always read as a REAL by SQLite, whereas Display prints
+/// 8.407903850944054e17 as 840790385094405400, an INTEGER literal that is not the value
+///
+fn sql_float(f: &f64) -> String {
+    format!("{:e}", f)
+}
+
 fn js_field(field: &str) -> String {
     format!("_json->'$.{}'", field)
 }
@@ -492,7 +500,7 @@ fn get_fields(
                     let default = match val {
                         ParamValue::Boolean(b) => b.to_string(),
                         ParamValue::Integer(i) => i.to_string(),
-                        ParamValue::Float(f) => f.to_string(),
+                        ParamValue::Float(f) => sql_float(f),
                         ParamValue::String(s) => prepared_query.add_param(String::from(s), true),
                         ParamValue::Binary(s) => prepared_query.add_param(String::from(s), true),
                         ParamValue::Null => unreachable!(),
@@ -524,7 +532,7 @@ fn get_fields(
                     let default = match val {
                         ParamValue::Boolean(b) => b.to_string(),
                         ParamValue::Integer(i) => i.to_string(),
-                        ParamValue::Float(f) => f.to_string(),
+                        ParamValue::Float(f) => sql_float(f),
                         ParamValue::String(s) => prepared_query.add_param(String::from(s), true),
                         ParamValue::Binary(s) => prepared_query.add_param(String::from(s), true),
                         ParamValue::Null => unreachable!(),
@@ -650,7 +658,7 @@ fn get_where_filters(params: &EntityParams, prepared_query: &mut SingleQuery, t:
                 FieldValue::Value(val) => match val {
                     ParamValue::Boolean(bool) => bool.to_string(),
                     ParamValue::Integer(i) => i.to_string(),
-                    ParamValue::Float(f) => f.to_string(),
+                    ParamValue::Float(f) => sql_float(f),
                     ParamValue::String(s) => prepared_query.add_param(String::from(s), true),
                     ParamValue::Binary(s) => prepared_query.add_param(String::from(s), true),
                     ParamValue::Null => {
@@ -804,7 +812,7 @@ fn get_where_filters(params: &EntityParams, prepared_query: &mut SingleQuery, t:
                 FieldValue::Value(val) => match val {
                     ParamValue::Boolean(bool) => bool.to_string(),
                     ParamValue::Integer(i) => i.to_string(),
-                    ParamValue::Float(f) => f.to_string(),
+                    ParamValue::Float(f) => sql_float(f),
                     ParamValue::String(s) => prepared_query.add_param(String::from(s), true),
                     ParamValue::Binary(s) => prepared_query.add_param(String::from(s), true),
                     ParamValue::Null => {
@@ -848,7 +856,7 @@ fn get_having_filters(params: &EntityParams, prepared_query: &mut SingleQuery, t
             FieldValue::Value(val) => match val {
                 ParamValue::Boolean(bool) => bool.to_string(),
                 ParamValue::Integer(i) => i.to_string(),
-                ParamValue::Float(f) => f.to_string(),
+                ParamValue::Float(f) => sql_float(f),
                 ParamValue::String(s) => prepared_query.add_param(String::from(s), true),
                 ParamValue::Binary(s) => prepared_query.add_param(String::from(s), true),
                 ParamValue::Null => {
@@ -970,7 +978,7 @@ pub fn get_paging(params: &EntityParams, prepared_query: &mut SingleQuery) -> St
                 FieldValue::Value(val) => match val {
                     ParamValue::Boolean(bool) => bool.to_string(),
                     ParamValue::Integer(i) => i.to_string(),
-                    ParamValue::Float(f) => f.to_string(),
+                    ParamValue::Float(f) => sql_float(f),
                     ParamValue::String(s) => prepared_query.add_param(String::from(s), true),
                     ParamValue::Binary(s) => prepared_query.add_param(String::from(s), true),
                     ParamValue::Null => String::from("null"),
@@ -998,7 +1006,7 @@ pub fn get_paging(params: &EntityParams, prepared_query: &mut SingleQuery) -> St
             FieldValue::Value(val) => match val {
                 ParamValue::Boolean(bool) => bool.to_string(),
                 ParamValue::Integer(i) => i.to_string(),
-                ParamValue::Float(f) => f.to_string(),
+                ParamValue::Float(f) => sql_float(f),
                 ParamValue::String(s) => prepared_query.add_param(String::from(s), true),
                 ParamValue::Binary(s) => prepared_query.add_param(String::from(s), true),
                 ParamValue::Null => String::from("null"),
